@@ -3,6 +3,7 @@ package main
 import (
 	"fmt"
 	"math/rand"
+	"strconv"
 	"strings"
 
 	openfgav1 "github.com/openfga/api/proto/openfga/v1"
@@ -129,6 +130,29 @@ func makeC08Input(seed int64, stream string, idx int) c08Input {
 		in.Text = mutateWith(r, mc[r.Intn(len(mc))], yamlTokens)
 		if r.Intn(8) == 0 {
 			in.Text = dslMutant()
+		}
+		if r.Intn(3) == 0 {
+			// well-formed manifests whose entries are very short strings over everything a path check looks at
+			// (separators, drive designators, escapes, dots): hand-written index arithmetic fails on the shortest ones
+			pieces := []string{":", "/", "\\", ".", "..", "%", "%3A", "%2F", "%5C", "%2e", "%", "+", " ", "c", "C", "a", "~", "$", "*", "?", "#", "é", "\x00", ".fga", ".FGA", "fga", "-", "|", ">", "&", "!", "'", "\""}
+			var sb strings.Builder
+			sb.WriteString([]string{"schema: '1.2'\n", "schema: \"1.2\"\n", "schema: 1.2\n", ""}[r.Intn(4)])
+			sb.WriteString("contents:\n")
+			for k := 1 + r.Intn(4); k > 0; k-- {
+				e := ""
+				for q := r.Intn(5); q > 0; q-- {
+					e += pieces[r.Intn(len(pieces))]
+				}
+				switch r.Intn(3) {
+				case 0:
+					sb.WriteString("  - " + strconv.Quote(e) + "\n")
+				case 1:
+					sb.WriteString("  - '" + strings.ReplaceAll(strings.ReplaceAll(e, "'", "''"), "\x00", "") + "'\n")
+				default:
+					sb.WriteString("  - " + e + "\n") // plain: whatever YAML makes of it
+				}
+			}
+			in.Text = sb.String()
 		}
 	case "json":
 		m := c02Model(r)
